@@ -23,6 +23,7 @@ Theorems (for EVERY state, EVERY operation with EVERY argument, EVERY finite his
 The statements are FALSE of the code as it was (`coded`): one `decide`d counterexample history per defect.
 -/
 import WntrModel.Lemmas.RegistryStepAll
+import WntrModel.Lemmas.RegistryViews
 
 namespace Wntr.Registry
 set_option linter.unusedVariables false
@@ -45,7 +46,7 @@ instance (s : Reg) : Decidable (Inv s) := decidable_of_iff _ (invB_iff s)
 /-! ### the invariant holds initially and is preserved by every operation of the repaired code -/
 
 /-- **inv_init**: a new `WaterNetworkModel()` satisfies the invariant -/
-theorem inv_init : InvR init := ⟨(invB_iff init).1 (by decide), rfl⟩
+theorem inv_init : InvR init := ⟨(invB_iff init).1 (by decide), rfl, fun _ _ => List.nodup_nil⟩
 
 /-- **inv_step**: every operation, with any arguments, whether it succeeds, is refused or raises, preserves the invariant -/
 theorem inv_step (s : Reg) (op : Op) (h : InvR s) : InvR (step repaired s op).1 := by
@@ -250,5 +251,112 @@ theorem remove_curve_in_use_refused (s : Reg) (c : Name) (h : Inv s)
     · exact hn _ ((Clause.usageCurveNodes_iff s).1 h.usageCurveNodes k i hk h1 c h2)
     · exact hn _ (((Clause.usageCurveLinks_iff s).1 h.usageCurveLinks k i hk).1 h1 c h2)
     · exact hn _ (((Clause.usageCurveLinks_iff s).1 h.usageCurveLinks k i hk).2 h1 c h2)
+
+/-! ### the full statement, and the code as it was
+
+`AllHistoriesConsistent v`: after ANY finite history on a new model all views agree.  `RefusedUnchanged v`: a refused operation
+leaves the model as it was (stated on the control list, the only thing a refusal ever changed).  Both hold of `repaired`
+(theorems above) and are false of `coded`: one minimal history per defect, each replayed on the implementation by the check. -/
+
+def AllHistoriesConsistent (v : Variant) : Prop := ∀ ops : List Op, Inv (run v init ops)
+
+def RefusedUnchanged (v : Variant) : Prop :=
+  ∀ (ops : List Op) (op : Op), (step v (run v init ops) op).2 = .refused →
+    (step v (run v init ops) op).1.controls = (run v init ops).controls
+
+/-- **all_histories_consistent**: the full statement holds of the repaired code -/
+theorem all_histories_consistent : AllHistoriesConsistent repaired := inv_history
+
+theorem refused_unchanged_repaired : RefusedUnchanged repaired := fun ops op h => by
+  rw [refused_leaves_unchanged _ op h]
+
+/-- remove a pump that has a speed pattern: `remove_usage` on the curve registry raises, the typed sets keep the pump
+(fixes/C14-delitem-releases-usage) -/
+theorem coded_cex_remove_pump_speed_pattern :
+    ¬ Inv (run coded init [.addJunction 1 none, .addJunction 2 none, .addPump 3 1 2 .power (some 9), .removeLink 3 false false]) := by
+  decide
+
+/-- remove a junction with a demand pattern / a reservoir with a head pattern: the pattern stays in use by a node that is gone -/
+theorem coded_cex_remove_junction_pattern : ¬ Inv (run coded init [.addJunction 1 (some 9), .removeNode 1 false false]) := by
+  decide
+theorem coded_cex_remove_reservoir_pattern : ¬ Inv (run coded init [.addReservoir 1 (some 9), .removeNode 1 false false]) := by
+  decide
+
+/-- remove a link whose two ends are the same node: the second `remove_usage` raises, typed sets keep the link -/
+theorem coded_cex_remove_selfloop :
+    ¬ Inv (run coded init [.addReservoir 1 none, .addPump 2 1 1 .power none, .removeLink 2 false false]) := by
+  decide
+
+/-- reassign one end of a self-loop: the node loses its usage record although it is still the other end
+(fixes/C14-end-node-setter-shared-node); the node can then be removed from under the link -/
+theorem coded_cex_set_end_selfloop :
+    ¬ Inv (run coded init [.addJunction 1 none, .addTank 2 none, .addValve 3 1 1 .pbv none, .setEnd 3 2]) := by
+  decide
+theorem coded_cex_set_end_selfloop_dangling :
+    ¬ Clause.endsExist (run coded init [.addJunction 1 none, .addTank 2 none, .addValve 3 1 1 .pbv none, .setEnd 3 2,
+      .removeNode 1 false false]) := by
+  decide
+
+/-- a failed `add_pipe` (unknown end node) leaves a usage record for a pipe that does not exist
+(fixes/C14-link-init-resolves-nodes-first) -/
+theorem coded_cex_add_pipe_unknown_end : ¬ Inv (run coded init [.addTank 1 none, .addPipe 2 1 9]) := by
+  decide
+
+/-- a removed curve stays in its typed set; a pump curve name that is no curve enters the typed set
+(fixes/C14-curve-typed-sets-registered-only) -/
+theorem coded_cex_remove_typed_curve : ¬ Inv (run coded init [.addCurve 1 (some .volume), .removeCurve 1]) := by
+  decide
+theorem coded_cex_pump_unknown_curve :
+    ¬ Inv (run coded init [.addReservoir 1 none, .addTank 2 none, .addPump 3 1 2 (.head 9) none]) := by
+  decide
+
+/-- a second element under an existing name silently replaces the first (fixes/C14-reject-duplicate-names) -/
+theorem coded_cex_duplicate_node : ¬ Inv (run coded init [.addJunction 1 none, .addReservoir 1 none]) := by
+  decide
+theorem coded_cex_duplicate_link :
+    ¬ Inv (run coded init [.addJunction 1 none, .addJunction 2 none, .addPump 3 1 2 .power none, .addPipe 3 1 2]) := by
+  decide
+
+/-- a source with a pattern leaves a usage record keyed by the Pattern object behind when it is removed
+(fixes/C14-source-pattern-usage-by-name) -/
+theorem coded_cex_remove_source_pattern :
+    ¬ Inv (run coded init [.addPattern 9, .addJunction 1 none, .addSource 2 1 (some 9), .removeSource 2]) := by
+  decide
+
+/-- **the full statement is false of the code as it was** -/
+theorem coded_not_consistent : ¬ AllHistoriesConsistent coded := fun h => coded_cex_remove_pump_speed_pattern (h _)
+
+/-- `remove_node(with_control=True)` of a node that is still in use is refused — after its controls were removed
+(fixes/C14-remove-controls-after-element) -/
+theorem coded_cex_refused_changed : ¬ RefusedUnchanged coded := fun h => by
+  have := h [.addJunction 1 none, .addJunction 2 none, .addPipe 3 1 2, .addControl 4 [1] []] (.removeNode 1 true false) (by decide)
+  revert this
+  decide
+
+/-! the same histories on the repaired code (instances of `inv_history`, evaluated) -/
+example : Inv (run repaired init [.addJunction 1 none, .addJunction 2 none, .addPump 3 1 2 .power (some 9), .removeLink 3 false false]) := by
+  decide
+example : (step repaired (run repaired init [.addTank 1 none]) (.addPipe 2 1 9)).2 = .error := by decide
+example : (step repaired (run repaired init [.addJunction 1 none]) (.addReservoir 1 none)).2 = .error := by decide
+
+/-! ### the derived views -/
+
+/-- **views_consistent**: in every state that satisfies the invariant the derived views (typed iterators, `get_links_for_node`
+for ALL / INLET / OUTLET, the nodes and edges of `to_graph`) are exactly what the primary stores say; no iterator raises -/
+theorem views_consistent (s : Reg) (h : InvR s) : viewsOk s (views s) = true := views_of_inv s h.1 h.2.2
+
+/-- after every finite history on a new model -/
+theorem views_history (ops : List Op) : viewsOk (run repaired init ops) (views (run repaired init ops)) = true :=
+  views_consistent _ (inv_reachable init ops inv_init)
+
+/-- the code as it was: after removing a pump with a speed pattern `wn.pumps()` raises -/
+theorem coded_cex_views :
+    viewsOk (run coded init [.addJunction 1 none, .addJunction 2 none, .addPump 3 1 2 .power (some 9), .removeLink 3 false false])
+      (views (run coded init [.addJunction 1 none, .addJunction 2 none, .addPump 3 1 2 .power (some 9), .removeLink 3 false false]))
+      = false := by
+  decide
+
+example : (views (run repaired init [.addJunction 1 none, .addTank 2 none, .addPipe 3 1 2])).linksFor =
+    [(1, some [3], some [], some [3]), (2, some [3], some [3], some [])] := by decide
 
 end Wntr.Registry
